@@ -312,6 +312,9 @@ class WorldC16(World):
                 return 'corrupt file refused (%s)' % type(e).__name__
             except OSError as e:
                 used = self._fault_used
+                if corrupt and not (used and used.get('fired')):
+                    ctx.probe('corrupt-file-refused')
+                    return 'corrupt file refused (%s)' % type(e).__name__
                 if used and used.get('fired'):
                     ctx.probe('load-read-fault')
                     return 'load fault propagated'
